@@ -4,7 +4,7 @@
     the oracles ([modify], [react], [mixf]) are injective-in-practice hash combinations, so that two
     entries have the same content identifier iff the model says they have the same content.
     The hand transcription ([hand_prims]) is executed, i.e. the specified behaviour. *)
-From Coq Require Import ZArith List Bool.
+From Coq Require Import ZArith List Bool FunctionalExtensionality.
 From IPV.C14 Require Import Store.
 Import ListNotations.
 Open Scope Z_scope.
@@ -33,8 +33,44 @@ Definition mk (tag : Z) (reads : list (read_op Z Z)) (rct : option (list (kind *
      s_react := match rct with Some (u, sv) => Some (xuse u, sv) | None => None end;
      s_cells := cells; s_mixes := mixes; s_copies := copies; s_delete := del |}.
 
+(* Stores are functions [kind -> list]; [saver], [copy_entities] and [delete_entities] return closures that
+   look the previous store up again on every call (several times per call: [used_kind], [present]), so an
+   un-normalised run costs time exponential in the number of calculations of a history.  [norm_store]
+   tabulates a store once (the [let] is evaluated when the function is applied); [x_prims] is the hand
+   transcription with every result tabulated, and is equal to it. *)
+Definition norm_store (st : store Z) : store Z :=
+  let l := map st all_kinds in fun k => nth (Z.to_nat (kind_idx k)) l [].
+
+Lemma norm_store_id (st : store Z) : norm_store st = st.
+Proof.
+  apply FunctionalExtensionality.functional_extensionality. intro k. destruct k; reflexivity.
+Qed.
+
+Definition x_prims : prims Z :=
+  {| p_copies := @rxn_copies Z;
+     p_saver := fun u res S st => norm_store (saver u res S st);
+     p_copy_ents := fun opts st => norm_store (copy_entities (read_copy opts) st);
+     p_delete_ents := fun opts st => norm_store (delete_entities (read_delete opts) st) |}.
+
+Lemma x_prims_hand : x_prims = hand_prims Z.
+Proof.
+  unfold x_prims, hand_prims. f_equal.
+  - apply FunctionalExtensionality.functional_extensionality. intro u.
+    apply FunctionalExtensionality.functional_extensionality. intro res.
+    apply FunctionalExtensionality.functional_extensionality. intro S.
+    apply FunctionalExtensionality.functional_extensionality. intro st. apply norm_store_id.
+  - apply FunctionalExtensionality.functional_extensionality. intro opts.
+    apply FunctionalExtensionality.functional_extensionality. intro st. apply norm_store_id.
+  - apply FunctionalExtensionality.functional_extensionality. intro opts.
+    apply FunctionalExtensionality.functional_extensionality. intro st. apply norm_store_id.
+Qed.
+
 Definition x_trace (steps : list xstep) : list (result Z) :=
-  trace x_modify x_react x_mix_nums x_mixf (hand_prims Z) steps (@empty_store Z).
+  trace x_modify x_react x_mix_nums x_mixf x_prims steps (@empty_store Z).
+
+Lemma x_trace_hand (steps : list xstep) :
+  x_trace steps = trace x_modify x_react x_mix_nums x_mixf (hand_prims Z) steps (@empty_store Z).
+Proof. unfold x_trace. rewrite x_prims_hand. reflexivity. Qed.
 
 (* flat rendering: kind index, key, stored number, content id *)
 Definition show_store (st : store Z) : list Z :=
